@@ -125,6 +125,7 @@ struct MacroDef {
 #[derive(Clone)]
 struct Invocation {
     name: String,
+    scope: usize,
     file: String,
     line: usize,
     tokens: TokenStream,
@@ -181,6 +182,7 @@ struct World {
     meta_kinds: BTreeMap<String, String>, // __M_x -> fragment kind
     field_cache: BTreeMap<usize, Vec<(String, Ty, String)>>,
     leaf_impls: Vec<String>,
+    macro_instances: Vec<(usize, String, String, String, usize)>, // macro def, qual, short, file, line of the invocation
     notes: Vec<String>,
     errors: Vec<String>,
     files: usize,
@@ -596,7 +598,7 @@ impl World {
                     if let (Some(id), "macro_rules") = (&m.ident, name.as_str()) {
                         self.macros.push(MacroDef { name: id.to_string(), scope, file: file.to_string(), line: line_of(id), tokens: m.mac.tokens.clone() });
                     } else {
-                        self.invocations.push(Invocation { name, file: file.to_string(), line: line_of(&m.mac.path), tokens: m.mac.tokens.clone() });
+                        self.invocations.push(Invocation { name, scope, file: file.to_string(), line: line_of(&m.mac.path), tokens: m.mac.tokens.clone() });
                     }
                 }
                 syn::Item::Mod(m) => {
@@ -661,6 +663,30 @@ impl World {
         }
     }
 
+    /// Absolute path of `name` as visible in module `m` of the scanned crates: defined there,
+    /// imported there by name, or (recursively) glob-imported there (`pub use static_string::*;`).
+    fn find_in_module(&self, m: &str, name: &str, depth: usize) -> Option<Vec<String>> {
+        let cand = format!("{}::{}", m, name);
+        if self.modules.contains(&cand) || self.item_quals.contains(&cand) {
+            return Some(cand.split("::").map(|s| s.to_string()).collect());
+        }
+        let &sc = self.scope_by_mod.get(m)?;
+        if let Some((_, p)) = self.scopes[sc].named.iter().find(|(l, _)| l == name) {
+            return Some(self.abs_of(sc, p));
+        }
+        if depth < 4 {
+            for g in &self.scopes[sc].globs {
+                let gp = self.abs_of(sc, g).join("::");
+                if gp != m {
+                    if let Some(r) = self.find_in_module(&gp, name, depth + 1) {
+                        return Some(r);
+                    }
+                }
+            }
+        }
+        None
+    }
+
     /// Expand the first segment of `segs` through the `use` declarations of `scope`.
     fn expand_path(&self, scope: usize, segs: &[String]) -> Vec<String> {
         let first = segs[0].as_str();
@@ -680,22 +706,12 @@ impl World {
             base.extend(segs.iter().cloned());
             return base;
         }
-        // glob imports of modules of the scanned crates: a definition or a named re-export there
+        // glob imports of modules of the scanned crates: a definition or a re-export there
         for g in &s.globs {
             let gp = self.abs_of(scope, g);
-            let gs = gp.join("::");
-            let cand = format!("{}::{}", gs, first);
-            if self.modules.contains(&cand) || self.item_quals.contains(&cand) {
-                let mut r = gp.clone();
-                r.extend(segs.iter().cloned());
+            if let Some(mut r) = self.find_in_module(&gp.join("::"), first, 0) {
+                r.extend(segs[1..].iter().cloned());
                 return r;
-            }
-            if let Some(&ts) = self.scope_by_mod.get(&gs) {
-                if let Some((_, p)) = self.scopes[ts].named.iter().find(|(l, _)| l == first) {
-                    let mut r = self.abs_of(ts, p);
-                    r.extend(segs[1..].iter().cloned());
-                    return r;
-                }
             }
         }
         segs.to_vec()
@@ -1118,6 +1134,12 @@ impl World {
             let params = d.gen.tparams.iter().map(|p| (p.0.clone(), p.1)).collect();
             add_row(rows, &d.qual, &d.short, Origin::Derive, (d.file.clone(), d.line), params, fields);
         }
+        for (di, qual, short, file, line) in self.macro_instances.clone() {
+            let d = self.defs[di].clone();
+            let fields = self.def_fields(di);
+            let params = d.gen.tparams.iter().map(|p| (p.0.clone(), p.1)).collect();
+            add_row(rows, &qual, &short, Origin::Derive, (file, line), params, fields);
+        }
     }
 
     fn aux_rows(&mut self, rows: &[Row]) -> Vec<Row> {
@@ -1165,6 +1187,19 @@ impl World {
 // ------------------------------------------------------------------------------------------
 // macro_rules! bodies
 // ------------------------------------------------------------------------------------------
+fn names_text(v: &[(Option<(String, String)>, String, usize)]) -> String {
+    if v.is_empty() {
+        return "none found".to_string();
+    }
+    v.iter()
+        .map(|(n, f, l)| match n {
+            Some((m, n)) => format!("{}::{} ({}:{})", m, n, f, l),
+            None => format!("<name not determined> ({}:{})", f, l),
+        })
+        .collect::<Vec<_>>()
+        .join(", ")
+}
+
 fn is_punct(t: &TokenTree, c: char) -> bool {
     matches!(t, TokenTree::Punct(p) if p.as_char() == c)
 }
@@ -1284,22 +1319,17 @@ fn inv_name(matcher: &TokenStream, var: &str, inv: &TokenStream) -> Option<Strin
 }
 
 impl World {
-    fn generated_names(&self, m: &MacroDef, matcher: &TokenStream, var: &str, same_file_only: bool) -> String {
+    /// (qualified name or None, file, line) of what every invocation of `m` binds to `$var`.
+    fn generated_names(&self, m: &MacroDef, matcher: &TokenStream, var: &str, same_file_only: bool) -> Vec<(Option<(String, String)>, String, usize)> {
         let mut names = Vec::new();
         for inv in &self.invocations {
             if inv.name != m.name || (same_file_only && inv.file != m.file) {
                 continue;
             }
-            match inv_name(matcher, var, &inv.tokens) {
-                Some(n) => names.push(format!("{} ({}:{})", n, inv.file, inv.line)),
-                None => names.push(format!("<name not determined> ({}:{})", inv.file, inv.line)),
-            }
+            let n = inv_name(matcher, var, &inv.tokens).map(|n| (self.modstr(inv.scope), n));
+            names.push((n, inv.file.clone(), inv.line));
         }
-        if names.is_empty() {
-            "none found".to_string()
-        } else {
-            names.join(", ")
-        }
+        names
     }
 
     fn scan_macro_body(&mut self, v: &[TokenTree], m: &MacroDef, matcher: &TokenStream, reps: usize) {
@@ -1324,9 +1354,16 @@ impl World {
                             Ok(di) => {
                                 self.add_def(&di, m.scope, &m.file, Some(&m.name));
                                 let short = di.ident.to_string();
-                                let gen = if short.starts_with("__M_") { self.generated_names(m, matcher, &short[4..], false) } else { "n/a".into() };
+                                let gen = if short.starts_with("__M_") { self.generated_names(m, matcher, &short[4..], false) } else { vec![] };
+                                let di = self.defs.len() - 1;
+                                for (n, f, l) in &gen {
+                                    if let Some((mo, n)) = n {
+                                        self.macro_instances.push((di, format!("{}::{}", mo, n), n.clone(), f.clone(), *l));
+                                    }
+                                }
+                                let gen = names_text(&gen);
                                 self.note(format!(
-                                    "{} #[derive(ZeroCopySend)] inside macro_rules! {} : tabled as ONE row `{}!::{}` with metavariables as `__M_x` (names resolved in the scope of the macro definition{}); types generated by invocations: {}",
+                                    "{} #[derive(ZeroCopySend)] inside macro_rules! {} : tabled as ONE row `{}!::{}` with metavariables as `__M_x` (names resolved in the scope of the macro definition{}) PLUS one copy of that row per invocation whose name could be determined: {}",
                                     at,
                                     m.name,
                                     m.name,
@@ -1357,7 +1394,7 @@ impl World {
                     match &v[k + 2] {
                         TokenTree::Ident(id) if id.to_string().starts_with("__M_") && k + 3 == end => {
                             let var = id.to_string()[4..].to_string();
-                            let gen = self.generated_names(m, matcher, &var, true);
+                            let gen = names_text(&self.generated_names(m, matcher, &var, true));
                             self.note(format!("{} `impl {} for ${}` inside macro_rules! {} (defined at {}:{}): not tabled (leaf); types generated by invocations in the same file: {}", at, tr, var, m.name, m.file, m.line, gen));
                         }
                         _ => self.err(&at, format!("`impl {} for {}` inside macro_rules! {}: self type is not a plain $metavariable; not supported", tr, selfty, m.name)),
